@@ -708,7 +708,12 @@ pub fn check_main(engine: &dyn Engine, o: &CheckOptions) -> i32 {
     if !new_viol.is_empty() {
         let dir = root.join("replays").join(&o.prop);
         let _ = std::fs::create_dir_all(&dir);
-        for (sig, vs) in &new_viol {
+        let n_sigs = new_viol.len();
+        for (k, (sig, vs)) in new_viol.iter().enumerate() {
+            if k >= 12 {
+                println!("  ... and {} more distinct violation signatures (not listed)", n_sigs - k);
+                break;
+            }
             let v = &vs[0];
             let fname: String = sig
                 .chars()
